@@ -9,7 +9,11 @@
 //! remove(embed(X,S)) == remove(X) byte for byte.
 //!
 //! Mutants caught (tools/mutant_run.sh A <diff> C09 quick):
-//!   C09-skip-co64.diff  (adjust_known_offsets no longer patches co64)  -> VIOLATION
+//!   C09-skip-co64.diff  (adjust_known_offsets no longer patches co64)  -> VIOLATION "media-changed fmt=Bmff table=co64 rel=mdat-after-c2pa first=trackN chunkN lenN -> data ..."
+//!
+//! Findings on the unchanged tree: every key with rel=mdat-before-c2pa (offsets of data lying before the manifest box are shifted; u32
+//! underflow panics when shrinking), every key with table=iloc-v1-base_offset (iloc v1 extent_index misparse), remove-roundtrip-differs
+//! fmt=Tiff|Svg|Riff|Gif, media-changed fmt=Id3 (text frames re-encoded), media-changed fmt=Gif (87a -> 89a).
 
 use kit::embed::{self, kind_of_err, remove, save, Iloc, Table, Top};
 use kit::walk;
